@@ -19,7 +19,8 @@
     typedOk        every kept assignment is between identical types (tags count), every conversion has an
                    operand whose type is identical ignoring tags (pointer types parenthesised), selectors
                    resolve to fields, the dispatcher's arguments have the parameter types of the interface method
-    noCycleOk      no declared type contains itself without indirection
+    noCycleOk      no declared type contains itself without indirection; no alias declaration refers to itself
+                   through alias declarations only
 -/
 import Varlink.Gen.GoFile
 import Varlink.Gen.Strings
@@ -422,10 +423,42 @@ def reachesName (decls : List Decl) (target : Bytes) : Nat → List Bytes → Bo
   | 0, ns => ns.contains target
   | fuel + 1, ns => ns.contains target || reachesName decls target fuel (expandNames decls ns)
 
+mutual
+/-- every type name a type mentions, at any depth -/
+def GoTy.allNames : GoTy → List Bytes
+  | .name n => [n]
+  | .qual _ _ => []
+  | .ptr t => t.allNames
+  | .slice t => t.allNames
+  | .map t => t.allNames
+  | .struct fs => fs.allNames
+  | .func p r => p.allNames ++ r.allNames
+def GoFields.allNames : GoFields → List Bytes
+  | .nil => []
+  | .cons _ t _ r => t.allNames ++ r.allNames
+end
+
+/-- the right-hand side of an alias declaration `type n = T` -/
+def lookupAliasDecl (decls : List Decl) (n : Bytes) : Option GoTy :=
+  match decls with
+  | [] => none
+  | .alias m t :: r => if m = n then some t else lookupAliasDecl r n
+  | _ :: r => lookupAliasDecl r n
+
+def expandAliasNames (decls : List Decl) (ns : List Bytes) : List Bytes :=
+  ((ns.map fun n => match lookupAliasDecl decls n with | some t => t.allNames | none => []).flatten).eraseDups
+
+/-- Go rejects an alias declaration that refers to itself through alias declarations only, whatever
+    indirection lies between (`type P = *P`, `type N = *struct{ Next N }`); a defined type on the way is fine -/
+def reachesAliasName (decls : List Decl) (target : Bytes) : Nat → List Bytes → Bool
+  | 0, ns => ns.contains target
+  | fuel + 1, ns => ns.contains target || reachesAliasName decls target fuel (expandAliasNames decls ns)
+
 def noCycleOk (f : GoFile) : Bool :=
   f.decls.all fun d => match d with
     | .type n t => !reachesName f.decls n f.decls.length t.directNames
     | .alias n t => !reachesName f.decls n f.decls.length t.directNames
+        && !reachesAliasName f.decls n f.decls.length t.allNames
     | _ => true
 
 /-! ## the conjunction -/
